@@ -23,7 +23,7 @@ ASSUMPTIONS = ["multiprocessing start method is fork (Linux default), as the mod
 EXHAUSTIVE = {"quick": ["Latin-square sample of the len x n_cpu x compression x mode grid"],
               "thorough": ["full grid len(seqs) 1..24 x n_cpu 1..16 x 8 compressions (mode rotating), plus n_cpu>len for every len<=8"]}
 WAIVE_IF = {"worker_log_unavailable": ["worker_events", "exactly_once_checked_calls"]}
-REQUIRE = {"big_config_cases": 1, "config_cases": 28, "multi_process_calls": 24, "ncpu_gt_len_cases": 5, "chunk_not_dividing_cases": 10,
+REQUIRE = {"same_array_object_cases": 6, "same_array_object_calls": 20, "big_config_cases": 1, "config_cases": 28, "multi_process_calls": 24, "ncpu_gt_len_cases": 5, "chunk_not_dividing_cases": 10,
            "compression_gt1_cases": 20, "worker_events": 200, "exactly_once_checked_calls": 28,
            "max_returns_cases": 15, "max_returns_truncating": 10, "mode_hamming": 9, "mode_custom": 9}
 SHARDS = {"quick": 8, "thorough": 16}
@@ -237,7 +237,34 @@ def k_bigconfig(ctx, n_per_class, lengths, k, mode, n_cpu, compression, np_seed)
                       sum(b.values()), sum(a.values()))
 
 
-KINDS = {"config": k_config, "maxret": k_maxret, "bigconfig": k_bigconfig}
+def k_same_array(ctx, seqs, steps, n_cpu, edit=None):
+    """the caller's own NumPy array passed to parallel kdtree calls again and again while the other arguments (and, in one step,
+    the array's content) change: each answer must be the single-process / oracle answer for the arguments of THAT call"""
+    import numpy as np
+    import pyrepseq.nn as nn
+    _install_worker_log()
+    arr = np.array(list(seqs), dtype=object if max(map(len, seqs)) == 0 else None)
+    ctx.count("same_array_object_cases")
+    ctx.sample("same_array", {"seqs": seqs[:8], "steps": steps, "n_cpu": n_cpu})
+    cur = list(seqs)
+    for si, st in enumerate(steps):
+        if st == "edit":
+            i, new = edit
+            arr[i] = new
+            cur[i] = str(arr[i])
+            continue
+        k, mode, dist, maxcd = st
+        maxcd_f = float("inf") if maxcd in (None, "inf") else maxcd
+        exp = _expected(cur, k, mode, dist, maxcd_f)
+        if exp:
+            ctx.nontriv(["same-array", cur, si, st, n_cpu])
+        ctx.count("multi_process_calls")
+        ctx.count("same_array_object_calls")
+        out = ctx.call(nn.kdtree, arr, n_cpu=n_cpu, **_kwargs(k, mode, dist, maxcd_f))
+        S.expect_triplets(ctx, out, exp, "kdtree", f"same-array-step{min(si, 1)}-{mode}-ncpu>1")
+
+
+KINDS = {"config": k_config, "maxret": k_maxret, "bigconfig": k_bigconfig, "same_array": k_same_array}
 COMPRESSIONS = [1, 2, 3, 5, 7, 20, 21, 25]
 MODES = ["default", "hamming", "custom"]
 
@@ -267,6 +294,13 @@ def generate(tier, seed):
         yield "bigconfig", {"n_per_class": 4200, "lengths": [8, 10, 12], "k": 1, "mode": "hamming", "n_cpu": 3, "compression": 1, "np_seed": 11600 + seed}, True
         yield "bigconfig", {"n_per_class": 33500, "lengths": [10, 12], "k": 1, "mode": "default", "n_cpu": 2, "compression": 1, "np_seed": 11700 + seed}, True
         yield "bigconfig", {"n_per_class": 9000, "lengths": [11], "k": 1, "mode": "default", "n_cpu": 3, "compression": 4, "np_seed": 11800 + seed}, True
+    # the same ndarray object in consecutive parallel calls with other max_edits / distance / content
+    fam = ["CAAA", "CADA", "CAAK", "CDDD", "CAAAK", "CAA", "CDDA", "CKKK", "CADAK", "CAAA"]
+    for n_cpu in (2, 3):
+        yield "same_array", {"seqs": fam, "n_cpu": n_cpu, "steps": [[1, "default", None, None], [2, "default", None, None], [2, "hamming", None, None],
+                                                                     [2, "custom", "lev2", 2], [1, "default", None, None]]}, True
+        yield "same_array", {"seqs": fam, "n_cpu": n_cpu, "edit": [3, "CAAD"], "steps": [[1, "default", None, None], "edit", [1, "default", None, None]]}, True
+        yield "same_array", {"seqs": fam, "n_cpu": n_cpu, "steps": [[2, "custom", "halflev", 1], [2, "custom", "levplus", "inf"], [3, "default", None, None]]}, True
     if thorough:
         idx = 0
         for n in range(1, 25):
